@@ -3,6 +3,7 @@ package sim
 import (
 	"encoding/hex"
 	"errors"
+	"os"
 	"runtime"
 	"strings"
 
@@ -14,6 +15,23 @@ import (
 // the call stack, i.e. whether Conn.locker is held by this goroutine. A harness
 // callback must not park in that case (a sleeper under a mutex plus a contender
 // freezes the fake clock).
+// raceTier: in the race-detector build the mutex is never probed (a TryLock is
+// a synchronisation the detector would take for an ordering between the command
+// loop and Server.Close); the call stack is used there.
+var raceTier = os.Getenv("VERIF_RACE") != ""
+
+// connLocked reports whether the mutex of the smtp.Conn that serves sc is held.
+// Under the simulation's discipline (one actor runs at an instant, nobody parks
+// with the mutex held) "held at all" means "held by the caller". For the
+// client endpoint and before the server has announced the Conn it falls back
+// to the call stack.
+func connLocked(sc *SimConn) bool {
+	if sc != nil && sc.owner != nil && !raceTier {
+		return smtp.VerifConnLocked(sc.owner)
+	}
+	return underConnLock()
+}
+
 func underConnLock() bool {
 	var pcs [32]uintptr
 	n := runtime.Callers(2, pcs[:])
